@@ -485,6 +485,131 @@ theorem complete_p2tr_keypath (env : Env) (x sig : Bytes) (hl : x.length = 32)
   simp [finalTest, Cfg.repaired, op_verify, decodeNum_boolNum]
 
 
+/-- P2SH-P2WSH m-of-n, completeness: scriptSig `[redeem script]`, witness `<> <sig_1> … <sig_m> <witness script>` -/
+theorem complete_p2sh_p2wsh_multisig (env : Env) (rs ws : Bytes) (pks raw : List Bytes)
+    (hm : 1 ≤ raw.length ∧ raw.length ≤ 16) (hn : 1 ≤ pks.length ∧ pks.length ≤ 16)
+    (hparseW : parseCommands ws = some (multisigScript raw.length pks)) (hw32 : (env.sha256 ws).length = 32)
+    (hparseR : parseCommands rs = some (p2wshSpk (env.sha256 ws))) (hh : (env.hash160 rs).length = 20)
+    (hw : MultisigWitness env pks raw) (fuel : Nat) (hf : raw.length + pks.length + 8 ≤ fuel) :
+    verifyInput Cfg.repaired env [.push rs] (p2shSpk (env.hash160 rs)) ([] :: raw ++ [ws]) fuel = .accept := by
+  obtain ⟨sigs, hsp, hmatch, hpk, hpre⟩ := hw
+  have hs : structuralReject Cfg.repaired [.push rs] (p2shSpk (env.hash160 rs)) = false := by
+    simp [structuralReject, p2shSpk, isP2sh, hh, hasOpAbove16, nestedWitnessNotAlone, isWitnessScript, isP2wpkh,
+      isP2wsh, isP2tr, Cfg.repaired]
+  simp only [verifyInput, hs, Bool.false_eq_true, if_false, evaluate_eq]
+  obtain ⟨f, rfl⟩ : ∃ f, fuel = ((f + (raw.length + 1)) + 2) + 1 := ⟨fuel - raw.length - 4, by omega⟩
+  have hwit : (if (([] : Bytes) :: raw ++ [ws]).isEmpty then none else some (([] : Bytes) :: raw ++ [ws]))
+      = some (([] : Bytes) :: raw ++ [ws]) := rfl
+  rw [hwit, show [Cmd.push rs] ++ p2shSpk (env.hash160 rs) = Cmd.push rs :: p2shSpk (env.hash160 rs) from rfl,
+    run_cons _ _ _ _ (.push rs) (p2shSpk (env.hash160 rs)) rfl, step_push_p2sh env rs _ hh]
+  simp only [beq_self_eq_true, if_true, hparseR]
+  have hne : (p2wshSpk (env.sha256 ws)).isEmpty = false := by simp [p2wshSpk]
+  simp only [hne, Bool.not_false, if_true]
+  have hr : (([] : Bytes) :: raw ++ [ws]).reverse = ws :: (raw.reverse ++ [[]]) := by simp
+  rw [run_p2wsh_program env _ ws hw32 [] _ (raw.reverse ++ [[]]) _ hr rfl hparseW]
+  have hrr : (raw.reverse ++ [([] : Bytes)]).reverse = [] :: raw := by simp
+  rw [hrr]
+  have := run_pushes env (multisigScript raw.length pks) (by simp [multisigScript])
+    (noP2shTail_multisigScript _ pks hn.1) (([] : Bytes) :: raw) [] [] (some (([] : Bytes) :: raw ++ [ws])) false f
+  simp only [List.length_cons] at this
+  rw [this]
+  refine multisig_script_complete env raw.length pks hm hn _ [] _ sigs (by simp) ?_ hmatch hpk hpre f (by omega)
+  have : ((([] : Bytes) :: raw).reverse ++ []).take raw.length = raw.reverse := by
+    simp only [List.reverse_cons, List.append_nil]
+    exact take_append_len _ _ _ (by simp)
+  rw [this]; exact hsp
+
+/-- a single-key tapscript leaf `<x> CHECKSIG` (P2PKTapScript, 1-of-1 MultiSigTapScript, MuSigTapScript)
+    accepts only with a non-empty signature on top that verifies for `x` -/
+theorem tapleaf_single_sound (env : Env) (x0 : Bytes) (items : List Bytes) (alt : Stack)
+    (wit : Option (List Bytes)) (fuel : Nat)
+    (ha : run Cfg.repaired env fuel ⟨items.map .push ++ [.push x0, .op 0xAC], [], alt, wit, true⟩ = .accept) :
+    ∃ sig rest, items.reverse = sig :: rest ∧ schnorrCheck env x0 sig = .ok (some true) := by
+  have hnp : NoP2shTail [Cmd.push x0, Cmd.op 0xAC] := by
+    intro X h160 e
+    have h3 : X.length = 1 := by have := congrArg List.length e; simp at this; omega
+    match X, h3 with
+    | [y], _ => simp at e
+  obtain ⟨f1, ha1⟩ := run_pushes_accept env [.push x0, .op 0xAC] (by simp) hnp items [] alt wit true fuel ha
+  simp only [List.append_nil] at ha1
+  obtain ⟨f2, st2, rfl, hs2, ha2⟩ := run_accept_cons (c := .push x0) (rest := [.op 0xAC]) rfl ha1
+  rw [step_push_first env _ x0 (.op 0xAC) _ rfl (by simp)] at hs2
+  simp only [Except.ok.injEq] at hs2
+  subst hs2
+  obtain ⟨f3, st3, rfl, hs3, ha3⟩ := run_accept_cons (c := .op 0xAC) (rest := []) rfl ha2
+  rw [step_op _ _ _ true 0xAC .checksigSchnorr rfl (by decide) (by decide) (by decide)] at hs3
+  obtain ⟨s3, e3, k3⟩ := toOut_ok hs3
+  simp only [applyStackFn] at e3
+  cases hrev : items.reverse with
+  | nil => rw [hrev] at e3; simp [op_checksig_schnorr] at e3
+  | cons sig S' =>
+    rw [hrev] at e3
+    simp only [Except.ok.injEq] at k3
+    subst k3
+    have hfin := run_accept_nil rfl ha3
+    simp only [op_checksig_schnorr] at e3
+    cases hc : schnorrCheck env x0 sig with
+    | fail => rw [hc] at e3; cases e3
+    | err e => rw [hc] at e3; cases e3
+    | ok r =>
+      rw [hc] at e3
+      cases r with
+      | none =>
+        simp only [Res.bind, Res.ok.injEq] at e3
+        subst e3
+        simp [finalTest, Cfg.repaired, op_verify, decodeNum_encodeNum] at hfin
+      | some b =>
+        simp only [Res.bind, Res.ok.injEq] at e3
+        subst e3
+        cases b with
+        | true => exact ⟨sig, S', rfl, hc⟩
+        | false => simp [finalTest, Cfg.repaired, op_verify, decodeNum_boolNum] at hfin
+
+/-- P2TR script path with a k-of-n MultiSigTapScript leaf (n ≥ 2), completeness: witness
+    `<sig_{n-1}|empty> … <sig_0|empty> <script> <control block>` where the control block commits the script
+    bytes to the output key and exactly `k` of the signatures verify for their key -/
+theorem complete_p2tr_scriptpath (env : Env) (x : Bytes) (hl : x.length = 32) (w : List Bytes)
+    (rawTap cb v rest : Bytes) (tapScript : Script.Script) (b0 : UInt8) (r0 : Bytes) (hcb : cb = b0 :: r0)
+    (hb0 : b0.toNat ≠ 80) (hcbe : env.cbErr cb = none) (hv : encodeVarstr rawTap = some v)
+    (hparse : Script.parse v = some (tapScript, rest)) (hraw : rawTap ≠ [])
+    (htc : env.tapCommit cb rawTap = .ok (x, true))
+    (x0 : Bytes) (xs : List Bytes) (k : Nat) (hk : 1 ≤ k ∧ k ≤ 16) (hxs : xs ≠ [])
+    (hscript : tapScript.cmds = tapMultisigScript x0 xs k)
+    (hok : ChecksOK env (x0 :: xs) w.reverse) (hcnt : countValid env (x0 :: xs) w.reverse = k)
+    (fuel : Nat) (hf : w.length + 2 * xs.length + 6 ≤ fuel) :
+    verifyInput Cfg.repaired env [] (p2trSpk x) (w ++ [rawTap, cb]) fuel = .accept := by
+  have hs : structuralReject Cfg.repaired [] (p2trSpk x) = false := by
+    simp [structuralReject, p2trSpk, isP2sh]
+  simp only [verifyInput, hs, Bool.false_eq_true, if_false, evaluate_eq, List.nil_append]
+  have hwit : (if (w ++ [rawTap, cb]).isEmpty then none else some (w ++ [rawTap, cb])) = some (w ++ [rawTap, cb]) := by
+    cases w <;> rfl
+  obtain ⟨f, rfl⟩ : ∃ f, fuel = ((f + 2) + w.length) + 2 := ⟨fuel - w.length - 4, by omega⟩
+  rw [hwit, run_p2tr_scriptpath env x hl [] w rawTap cb v rest tapScript b0 r0 hcb hb0 hcbe hv hparse hraw htc, hscript]
+  have hlen4 : 4 ≤ (tapMultisigScript x0 xs k).length := by
+    cases xs with
+    | nil => exact absurd rfl hxs
+    | cons a r => simp [tapMultisigScript, addChain]
+  rw [run_pushes env (tapMultisigScript x0 xs k) (by simp [tapMultisigScript]) (noP2shTail_of_length hlen4) w [] [] _ true (f + 2)]
+  simp only [List.append_nil]
+  cases hrev : w.reverse with
+  | nil => rw [hrev] at hok; simp [ChecksOK] at hok
+  | cons sig S' =>
+    rw [hrev] at hok hcnt
+    obtain ⟨⟨r, hr⟩, hok'⟩ := hok
+    have e : tapMultisigScript x0 xs k = .push x0 :: .op 0xAC :: (addChain xs ++ [.op (80 + k), .op 0x87]) := by
+      simp [tapMultisigScript]
+    rw [e, run_cons _ _ (f + 1) _ (.push x0) (.op 0xAC :: (addChain xs ++ [.op (80 + k), .op 0x87])) rfl,
+      step_push_first env _ x0 (.op 0xAC) _ rfl (by simp)]
+    simp only
+    rw [run_cons _ _ f _ (.op 0xAC) (addChain xs ++ [.op (80 + k), .op 0x87]) rfl,
+      step_op _ _ _ true 0xAC .checksigSchnorr rfl (by decide) (by decide) (by decide)]
+    simp only [applyStackFn]
+    rw [checksig_forward env x0 sig S' r hr]
+    simp only [Res.toOut]
+    have := addChain_complete env k hk [] (some (w ++ [rawTap, cb])) xs S' (sigCount env x0 sig) [] f hok'
+      (by simp [countValid] at hcnt; omega) (by omega)
+    simpa using this
+
 /-! ## the repairs are needed: today's code (Cfg.preC06 = /repo at a5beaa1) on concrete inputs -/
 
 /-- F06a: 1-of-1 CHECKMULTISIG with a signature that the key does not verify: today's loop falls through
